@@ -44,6 +44,7 @@ func runC18(c *core.Ctx) {
 	// the unsubscribe notification of a closing connection exists only for the filters its
 	// counters still know: integrity of the counter chains (shared with C02.R1)
 	foldKeyRule(c, "C18.R7", 5)
+	counterTransitions(c, "C18.R8")
 }
 
 func c18R1(c *core.Ctx) { c18R1as(c, "C18.R1") }
